@@ -4,6 +4,8 @@
 (* TLC from FramingOps.  The expectation does not depend on the segmentation  *)
 (* (that is the property; Framing.tla checks the reader models against it for *)
 (* every segmentation), so the driver runs each case under every cut set.     *)
+(* For the timeout conditions every case also carries continuations (Conts of *)
+(* FramingOps): a tail served to reads after the error, with AcceptableAt.    *)
 EXTENDS FramingOps, TLC, Json
 CONSTANTS GenMax
 VARIABLES gs
@@ -12,7 +14,10 @@ GNext == FALSE /\ gs' = gs
 GSpec == GInit /\ [][GNext]_gs
 Case(s) == [s |-> s, maxline |-> MaxLine(s),
             eof |-> Acceptable(s, "eof"),            \* = Acceptable(s, "dataeof")
-            tmo |-> Acceptable(s, "timeout")]        \* = Acceptable(s, "datatimeout")
+            tmo |-> Acceptable(s, "timeout"),        \* = Acceptable(s, "datatimeout")
+            \* s followed by a tail that the network delivers to reads issued after the timeout error:
+            \* the acceptable lists (positions of s \o tail) and the lists of the read-on deviation
+            conts |-> Conts(s)]
 ASSUME \A s \in {<<"x", "CR">>, <<"LF">>, <<>>} :
           Acceptable(s, "eof") = Acceptable(s, "dataeof") /\ Acceptable(s, "timeout") = Acceptable(s, "datatimeout")
 Emit == PrintT("@@L " \o ToJson(Case(gs)))
